@@ -22,14 +22,13 @@
 //   Deadlock freedom of the *program* (a documented obligation of the user of any semaphore-like
 //   pool): sum over threads of (max resources held at once - 1) < VF_SIZE; the spec only lists such
 //   configurations, so any parked-forever thread is the pool's fault.
-#include "rp_common.h"
-
 #ifndef VF_SIZE
 #define VF_SIZE 2
 #endif
 #ifndef VF_SYMSIZE
 #define VF_SYMSIZE 0
 #endif
+#include "rp_common.h"
 #ifndef VF_T1A
 #define VF_T1A 0
 #endif
